@@ -114,7 +114,7 @@ struct Fixture {
   int ncl; std::atomic<int> st[3]; std::atomic<long> ep[3]; std::atomic<int> got[3]; std::atomic<int> live{0};
   bool claimed = false;                                                   // dispatcher thread only
   std::atomic<long> handled{0};
-  std::vector<int> delivered;                                           // dispatcher thread only
+  std::vector<int> delivered; int late_delivery = -1;                   // dispatcher thread only
   std::string violation; std::string client_violation[3]; long raised = 0, demanded = 0;
   explicit Fixture(int n) : ncl(n) {
     for (int i = 0; i < 3; ++i) { st[i] = IDLE; ep[i] = 0; got[i] = 0; }
@@ -136,9 +136,12 @@ struct Fixture {
   void raise() {
     int holder = -1; long hep = 0; for (int c = 0; c < ncl; ++c) if (st[c] == HOLDING) { holder = c; hep = ep[c]; }
     std::set<int> busy0; for (int c = 0; c < ncl; ++c) if (st[c] != IDLE) busy0.insert(c);
-    delivered.clear(); ++raised;
+    delivered.clear(); late_delivery = -1; ++raised;
     { %(out_decl)s comp->%(port)s.out.%(out)s(%(out_call)s); }
     if (delivered.size() > 1) violation += "out-event delivered to more than one client; ";
+    // at the moment of delivery the receiver must still be inside its claim..release bracket: a client whose
+    // release call has already RETURNED no longer holds the claim (C04 under concurrency)
+    if (late_delivery >= 0) violation += std::string("out-event delivered to client ") + CL[late_delivery] + " after its release call had returned; ";
     if (holder >= 0 && st[holder] == HOLDING && ep[holder] == hep) {     // held the claim during the whole raise
       ++demanded;
       if (delivered.size() != 1 || delivered[0] != holder) violation += std::string("client ") + CL[holder] + " holds the claim (granted, not released) but the out-event went to " + (delivered.empty() ? std::string("nobody") : std::string(CL[delivered[0]])) + "; ";
@@ -224,7 +227,7 @@ int main(int argc, char** argv) {
             for e in p.ins() if e.name not in (mc['claim'], mc['release'])),
         'client_out_binds': '\n'.join(
             f'      port.port.out.{e.name} = [this, c]{sig(e)} {{ ' +
-            ('delivered.push_back(c); got[c]++; ' if e.name == out_ev.name else '') + '};'
+            ('delivered.push_back(c); got[c]++; if (st[c] == IDLE) late_delivery = c; ' if e.name == out_ev.name else '') + '};'
             for e in p.outs()),
         'others_bind': '\n'.join(others_bind),
         'out_decl': decl(out_ev), 'out_call': call(out_ev),
